@@ -7,6 +7,7 @@ use crate::sio::drive;
 use crate::sio::Eof;
 use crate::sio::ScriptedReader;
 use crate::trace::bytes;
+use crate::trace::journal;
 use crate::trace::lib;
 use crate::trace::measure;
 use crate::trace::v62;
@@ -143,6 +144,7 @@ fn finish(
 // ------------------------------------------------------------------ varint
 
 pub fn varint_sync(t: &mut Tracer, input: &[u8]) {
+    journal("varint_sync", input);
     let meas = measure(|| {
         let mut m = Map::new();
         let mut s: &[u8] = input;
@@ -175,6 +177,7 @@ pub fn varint_sync(t: &mut Tracer, input: &[u8]) {
 }
 
 pub fn varint_async(t: &mut Tracer, input: &[u8], script: &[usize], eof: Eof) {
+    journal("varint_async", input);
     let meas = measure(|| {
         let mut m = Map::new();
         let mut rd = ScriptedReader::new(input, script, eof);
@@ -200,6 +203,7 @@ pub fn varint_async(t: &mut Tracer, input: &[u8], script: &[usize], eof: Eof) {
 // ------------------------------------------------------------------- frame
 
 pub fn frame_sync(t: &mut Tracer, input: &[u8]) {
+    journal("frame_sync", input);
     let meas = measure(|| {
         let mut m = Map::new();
         let mut s: &[u8] = input;
@@ -259,6 +263,7 @@ pub fn frame_sync(t: &mut Tracer, input: &[u8]) {
 }
 
 pub fn frame_async(t: &mut Tracer, input: &[u8], script: &[usize], eof: Eof) {
+    journal("frame_async", input);
     let meas = measure(|| {
         let mut m = Map::new();
         let mut rd = ScriptedReader::new(input, script, eof);
@@ -299,6 +304,7 @@ fn shdr_fields(m: &mut Map<String, Value>, h: &StreamHeader) {
 }
 
 pub fn shdr_sync(t: &mut Tracer, input: &[u8]) {
+    journal("shdr_sync", input);
     let meas = measure(|| {
         let mut m = Map::new();
         let mut s: &[u8] = input;
@@ -339,6 +345,7 @@ pub fn shdr_sync(t: &mut Tracer, input: &[u8]) {
 }
 
 pub fn shdr_async(t: &mut Tracer, input: &[u8], script: &[usize], eof: Eof) {
+    journal("shdr_async", input);
     let meas = measure(|| {
         let mut m = Map::new();
         let mut rd = ScriptedReader::new(input, script, eof);
@@ -454,6 +461,7 @@ const TS_MAX_CALLS: usize = 64;
 /// Repeatedly calls the synchronous reader on one typestate object until it stops
 /// yielding frames. `api` is "slice" (read_frame on &[u8]) or "frombuf".
 pub fn ts_sync(t: &mut Tracer, role: Role, api: &str, input: &[u8]) {
+    journal("ts_sync", input);
     let meas = measure(|| {
         let mut m = Map::new();
         let mut out = Vec::new();
@@ -504,6 +512,7 @@ pub fn ts_sync(t: &mut Tracer, role: Role, api: &str, input: &[u8]) {
 }
 
 pub fn ts_async(t: &mut Tracer, role: Role, input: &[u8], script: &[usize], eof: Eof) {
+    journal("ts_async", input);
     let meas = measure(|| {
         let mut m = Map::new();
         let mut out = Vec::new();
@@ -546,6 +555,7 @@ pub fn ts_async(t: &mut Tracer, role: Role, input: &[u8], script: &[usize], eof:
 
 /// The unidirectional stream preamble reader (`upgrade` / `upgrade_async`).
 pub fn uni_upgrade(t: &mut Tracer, input: &[u8], script: &[usize], eof: Eof) {
+    journal("uni_upgrade", input);
     let meas = measure(|| {
         let mut m = Map::new();
         let mut s: &[u8] = input;
@@ -672,6 +682,7 @@ pub fn settings_map(s: &Settings, payload: &[u8]) -> Value {
 }
 
 pub fn settings_dec(t: &mut Tracer, payload: &[u8]) {
+    journal("settings_dec", payload);
     let meas = measure(|| {
         let mut m = Map::new();
         let f = Frame::new_settings(Cow::Borrowed(payload));
@@ -703,6 +714,7 @@ pub fn pairs_value<'a>(it: impl Iterator<Item = (&'a String, &'a String)>) -> Va
 }
 
 pub fn qpack_dec(t: &mut Tracer, data: &[u8]) {
+    journal("qpack_dec", data);
     let meas = measure(|| {
         let mut m = Map::new();
         match lib(|| qpack::Decoder::decode(data)) {
@@ -720,6 +732,7 @@ pub fn qpack_dec(t: &mut Tracer, data: &[u8]) {
 }
 
 pub fn headers_dec(t: &mut Tracer, data: &[u8]) {
+    journal("headers_dec", data);
     let meas = measure(|| {
         let mut m = Map::new();
         let f = Frame::new_headers(Cow::Borrowed(data));
@@ -741,6 +754,7 @@ pub fn headers_dec(t: &mut Tracer, data: &[u8]) {
 // ---------------------------------------------------------------- datagram
 
 pub fn dgram_dec(t: &mut Tracer, data: &[u8]) {
+    journal("dgram_dec", data);
     let meas = measure(|| {
         let mut m = Map::new();
         match lib(|| Datagram::read(data)) {
@@ -773,6 +787,7 @@ pub fn dgram_dec(t: &mut Tracer, data: &[u8]) {
 // ----------------------------------------------------------------- capsule
 
 pub fn capsule_dec(t: &mut Tracer, data: &[u8]) {
+    journal("capsule_dec", data);
     let meas = measure(|| {
         let mut m = Map::new();
         let f = Frame::new_data(Cow::Borrowed(data));
